@@ -139,6 +139,11 @@ func main() {
 				}
 				c.Add("messages", 1)
 				totalBytes += n
+				if n != len(raw) {
+					// "reports its exact byte count": the message is cut from the stream at its own length field
+					c.Violation(k, "bytes-reported", fmt.Sprintf("send %d: SendSet reported %d bytes, the message at the peer has %d", i, n, len(raw)), desc)
+					return
+				}
 				m, err := refipfix.ParseMessage(raw)
 				if err != nil {
 					c.Violation(k, "malformed", fmt.Sprintf("send %d (SendSet reported %d bytes): what arrived at the peer is not one message: %v", i, n, err), desc)
